@@ -936,6 +936,47 @@ Definition write_ignores_cf (cfg : config) (now : Z) (db : list (str * expiry)) 
 Definition read_ignores_cf (cfg : config) (text : str) : list (str * Z) := read_ignores text.
 
 (* ------------------------------------------------------------------ *)
+(* the nick mutators of IrcUser (added): state-then-raise, statement order from the source (tables
+   ADDNICK_LIST_BEFORE_CHECK, REMOVENICK_DROPS_EMPTY).  [valid] is ircutils.isNick(nick), an input. *)
+Definition nick_list (u : user) (net : str) : option (list str) := dict_get net (u_nicks u).
+(* users.getUserFromNick(network, nick) *)
+Definition get_user_from_nick (db : list user) (net nick : str) : option user :=
+  find (fun v => match nick_list v net with Some l => smem nick l | None => false end) db.
+
+Fixpoint remove_first (x : str) (l : list str) : list str :=
+  match l with [] => [] | y :: l' => if seq_eqb x y then l' else y :: remove_first x l' end.
+Fixpoint dict_del {A} (k : str) (d : list (str * A)) : list (str * A) :=
+  match d with [] => [] | (k', v) :: d' => if seq_eqb k k' then d' else (k', v) :: dict_del k d' end.
+
+Definition add_nick (db : list user) (u : user) (net nick : str) (valid : bool) : user * option exn :=
+  if negb valid then (u, Some AssertionError) else
+  let u1 := if gen.T16.ADDNICK_LIST_BEFORE_CHECK
+            then match nick_list u net with Some _ => u | None => set_nicks (dict_set net [] (u_nicks u)) u end
+            else u in
+  match get_user_from_nick db net nick with
+  | Some _ => (u1, Some KeyError)
+  | None => let l := match nick_list u1 net with Some l => l | None => [] end in
+            (set_nicks (dict_set net (if smem nick l then l else l ++ [nick]) (u_nicks u1)) u1, None)
+  end.
+
+Definition remove_nick (u : user) (net nick : str) : user * option exn :=
+  match nick_list u net with
+  | None => (u, Some KeyError)
+  | Some l =>
+      if negb (smem nick l) then (u, Some KeyError) else
+      let l' := remove_first nick l in
+      match l' with
+      | [] => if gen.T16.REMOVENICK_DROPS_EMPTY then (set_nicks (dict_del net (u_nicks u)) u, None)
+              else (set_nicks (dict_set net [] (u_nicks u)) u, None)
+      | _ => (set_nicks (dict_set net l' (u_nicks u)) u, None)
+      end
+  end.
+
+(* what IrcUser.preserve can write and IrcUserCreator.nicks reads back: no network with an empty nick list *)
+Definition nick_lists_nonempty (u : user) : bool :=
+  forallb (fun nn : str * list str => match snd nn with [] => false | _ => true end) (u_nicks u).
+
+(* ------------------------------------------------------------------ *)
 (* wire                                                                *)
 
 Definition vZ (z : Z) : value := I z.
@@ -984,6 +1025,9 @@ Definition run (v : value) : value :=
   | 11 => vB (ign_dom (gZ (nth_v 0 p)) (gPairs gExp (nth_v 1 p)))
   | 14 => let r := read_channels_from_cf (Config (gB (nth_v 0 p))) (gO gS (nth_v 1 p)) (gS (nth_v 2 p)) in
           L [vPairs vChan (cs_db (fst r)); vExn (snd r); vO vS (cs_name (fst r))]
+  | 15 => let r := add_nick (map gUser (gL (nth_v 0 p))) (gUser (nth_v 1 p)) (gS (nth_v 2 p)) (gS (nth_v 3 p)) (gB (nth_v 4 p)) in
+          L [vUser (fst r); vExn (snd r)]
+  | 16 => let r := remove_nick (gUser (nth_v 0 p)) (gS (nth_v 1 p)) (gS (nth_v 2 p)) in L [vUser (fst r); vExn (snd r)]
   | 12 => vB (glob (gS (nth_v 0 p)) (gS (nth_v 1 p)))
   | 13 => vB (is_user_hostmask (gS p))
   | _ => L []
